@@ -102,6 +102,53 @@ def u_np_smooth_group(ip):
              and ip.to_U(ip.getattr(mem["rank"], "value")).eq(ip.to_U(ip.uf("matrix_rank", z3.Const("K2", U), sort=Int))))
 
 
+@unit("C13.kernels_of_dist_reg_mcmc_belong_to_their_own_smooth", "C13", [f"{DR}::dist_reg_mcmc", f"{DR}::tau2_gibbs_kernel", f"{DR}::tau2_gibbs_kernel.<locals>.transition", f"{N}::Group.value_from",
+                                                                          f"{N}::Group.__getitem__", f"{N}::Group.__contains__"],
+      assumptions=["REAL DistRegBuilder model with TWO non-parametric smooths (and parametric ones), real dist_reg_mcmc; a smoothing variance's conditional is read through the "
+                   "kernel's transition function applied to a symbolic model state", "A-RNG", "A-REAL"], max_paths=64)
+def u_dist_reg_mcmc(ip):
+    """the convenience entry point builds, for every smoothing variance, a Gibbs kernel whose transition reads a, b, rank, K and beta of THAT variance's own group from
+    the state it is handed (not of another smooth) and returns the draw under that variance's name."""
+    c = ip.ctx
+    real_arith(ip)
+    from contracts.c02 import distreg_builder
+    b = distreg_builder(ip, int_rank=True)
+    ip.call(method(ip, b, "add_np_smooth"), [z3.Const("X4", U), z3.Const("K4", U), 4.0, 2.5, "scale"], {})
+    model = ip.call(method(ip, b, "build_model"), [], {})
+    ip.summaries["liesel/goose/interface.py::LieselInterface.__init__"] = lambda ip_, args, kwargs: None
+    from contracts.c07 import install_pytree_models, tree_map_model
+    install_pytree_models(ip)
+    ip.models.setdefault("jax.tree_util.tree_map", tree_map_model)
+    ip.models.setdefault("jax.tree.map", tree_map_model)
+    ip.summaries["liesel/goose/builder.py::EngineBuilder.set_initial_values"] = lambda ip_, args, kwargs: None  # (initial values are C10's subject)
+    ip.summaries["liesel/goose/builder.py::EngineBuilder.set_engine_seed"] = lambda ip_, args, kwargs: None
+    eb = ip.call(ip.repo(f"{DR}::dist_reg_mcmc"), [model, 1, 2], {})
+    real_arith(ip)  # (the model-building harness above installs its own array arithmetic; the transitions are read over the reals)
+    kernels = list(ip.getattr(eb, "kernels"))
+    gibbs = [k for k in kernels if getattr(k, "clsname", "") == "GibbsKernel"]
+    names = [tuple(ip.getattr(k, "position_keys")) for k in gibbs]
+    c.oblige("one_gibbs_kernel_per_smoothing_variance", sorted(names) == [("loc_np0_tau2",), ("scale_np0_tau2",)])
+    groups = ip.call(method(ip, model, "groups"), [], {})
+    state = {}
+    for gname in ("loc_np0", "scale_np0"):
+        for m_ in ("a", "b", "rank", "K", "beta", "tau2"):
+            nm = ip.getattr(groups[gname].f["_nodes_and_vars"][m_], "name")
+            vn = ip.getattr(ip.getattr(groups[gname].f["_nodes_and_vars"][m_], "value_node"), "name")
+            val = c.fresh(f"{gname}.{m_}", Real) if m_ in ("a", "b", "rank", "tau2") else z3.Const(f"{gname}.{m_}", U)
+            state[vn] = new_obj(ip, f"{N}::NodeState", value=val, outdated=False)
+            state.setdefault("__vals__", {})[(gname, m_)] = val
+    vals = state.pop("__vals__")
+    key = z3.Const("key", U)
+    for k in gibbs:
+        pk = ip.getattr(k, "position_keys")[0]
+        gname = pk[: -len("_tau2")]
+        out = ip.call(k.f["_transition_fn"], [key, state], {})
+        q = SCALAR(ip.uf("matmul", ip.uf("matmul", vals[(gname, "beta")], vals[(gname, "K")]), vals[(gname, "beta")]))
+        a_star, b_star = vals[(gname, "a")] + vals[(gname, "rank")] / 2, vals[(gname, "b")] + q / 2
+        c.oblige(f"{gname}.draw_from_its_own_smooths_conditional", isinstance(out, dict) and list(out) == [pk]
+                 and to_sort(out[pk], Real) == b_star / z3.Function("gamma_draw", U, Real, Real)(key, a_star))
+
+
 @unit("C13.group_value_from", "C13", [f"{N}::Group.value_from", f"{N}::Group.__getitem__", f"{N}::Group.__init__"])
 def u_value_from(ip):
     """Group.value_from(state, name) reads the member's value from the GIVEN state: for a variable its value node's entry, for a
